@@ -16,6 +16,36 @@ CHECKS = {
          "concrete violating input.",
     design="5/C07", technique="Coq proof of DFS correctness (invariant + potential-function fuel bound) + differential correspondence"),
 }
+CHECKS.update({
+ "C01": dict(
+    text="Theorems for every well-formed game and every number instance (so also binary64): finals report exactly 1, states without a "
+         "path to a final state exactly 0, probabilities independent of the pruning flag. The model is compared bit-for-bit (values and "
+         "sweep count) with Solver.solve_reachability / StochasticGame.solve on generated games; an exact Fraction oracle checks "
+         "'never above the true value' and closeness on guarded families. The error form of 'within tolerance' is false: known finding K1.",
+    design="5/C01", technique="Coq proof (frame lemmas of the Gauss-Seidel loop + C07) + bit-exact differential correspondence + exact-oracle search"),
+ "C03": dict(
+    text="Theorems (generic in the numbers): after prune_paths no Player-1/probabilistic state keeps a transition into a zero-probability "
+         "state, survivors are the alive successors in place, weights are old/surviving-total, Player 2 untouched, restriction keeps exactly "
+         "the strategy's actions, prune_states never touches states reachable from state 0 and terminates; end-to-end on solve. "
+         "Correspondence on every node's transition list at the start of the reward loop, every dead/alive pattern.",
+    design="5/C03", technique="Coq proof (list/filter lemmas, loop invariants) + differential correspondence on pruned lists"),
+ "C04": dict(
+    text="Theorems: the Player-1/2 scans return exactly the actions whose rounded successor value equals the running max/min (under "
+         "total-order laws proved for exact rationals), probabilistic states none, identical in both pruning modes (any instance). "
+         "Correspondence on reported strategies incl. tie grids; exact-oracle check on the exact family; true ties computed inexactly: K1.",
+    design="5/C04", technique="Coq proof (fold invariant: scan = arg-max filter) + differential correspondence"),
+ "C05": dict(
+    text="Theorem for every well-formed game and every instance: the final strategy of a Player-1 state is included in its reachability "
+         "strategy; the final scans are arg-max/arg-min of rounded expected rewards over the remaining transitions. Correspondence on both "
+         "strategy lists; independent recomputation from the reported values.",
+    design="5/C05", technique="Coq proof (pipeline inversion + frame lemmas) + differential correspondence"),
+ "C06": dict(
+    text="Theorem (any instance): for a well-formed game solve can only return a complete result, raise 'no solution' (pruning on), or run "
+         "out of the fuel of one of the two value-iteration loops / hit the reward step's unbound-variable branch (both excluded for exact "
+         "rationals where proved); search and prune_states always terminate. Every implementation run has a time limit; outcome class and "
+         "message compared with the model.",
+    design="5/C06", technique="Coq proof (outcome classification by case analysis of the pipeline, termination measures) + differential correspondence with time limits"),
+})
 PENDING = {}
 def main():
     props = [json.loads(l) for l in open(os.path.join(VERIF, "properties.jsonl"))]
